@@ -1,5 +1,6 @@
 import L21.Proofs.Gds
 import L21.Props.C15
+import L21.Proofs.GdsTree
 /-
 C01 — GDSII write-then-read returns the library that was written.
 
@@ -103,5 +104,27 @@ def c01_roundtrip_statement : Prop :=
       match r.pl with
       | .reals xs => ⟨r.rt, .reals (xs.map GdsFloat.canonZero)⟩
       | _ => r)
+
+/-- TREE LEVEL, PROVED: the reader's record-level state machine (`GdsParser::parse_lib` …
+    `parse_boundary`, `parse_strans`, properties, optional records in any combination) applied to the
+    record sequence the writer emits (`encode_lib` … `encode_strans`) returns the library that was
+    written — for every library whose coordinate lists have the shape their element kind demands
+    (boundary/path/node: pairs; sref/text: one point; aref: three; box: five). -/
+theorem c01_tree_roundtrip (l : Library) (h : libOk l = true) : parseLib (libRecs l) = .ok l :=
+  parseLib_libRecs l h
+
+def demoLib : Library :=
+  ⟨[108], 3, [1, 2, 3, 4, 5, 6, 7, 8, 9, 10, 11, 12], (0x3F50624DD2F1A9FC, 0x3E112E0BE826D695),
+    [⟨[97], [0, 0, 0, 0, 0, 0, 0, 0, 0, 0, 0, 0],
+      [.boundary 1 2 [0, 0, 5, 0, 5, 5, 0, 0] ⟨some (0, 1), some 7, [⟨1, [120]⟩, ⟨2, []⟩]⟩,
+       .path 3 4 [0, 0, 9, 0] (some 2) none (some (-1)) none ⟨none, none, []⟩,
+       .sref [98] [1, 2] (some ⟨true, false, true, some 0x4000000000000000, none⟩) ⟨none, none, []⟩,
+       .aref [98] [0, 0, 10, 0, 0, 20] 2 3 none ⟨none, some 1, []⟩,
+       .text [104, 105] 5 6 [3, 4] (some (0, 5)) none (some 4) (some ⟨false, true, false, none, some 0x4056800000000000⟩) ⟨none, none, [⟨9, [1]⟩]⟩,
+       .node 1 1 [0, 0] ⟨none, none, []⟩,
+       .box 1 1 [0, 0, 1, 0, 1, 1, 0, 1, 0, 0] ⟨none, none, []⟩]⟩,
+     ⟨[98], [], []⟩]⟩
+example : libOk demoLib = true := by decide
+example : parseLib (libRecs demoLib) = .ok demoLib := by decide +kernel
 
 end L21.Gds
